@@ -16,6 +16,9 @@ from . import jsonio
 
 VERIF = os.path.dirname(os.path.dirname(os.path.dirname(os.path.abspath(__file__))))
 FINDINGS_FILE = os.path.join(VERIF, 'known_findings.json')
+# mutation trials (VF_REPO pointing at a scratch tree) must not overwrite the real evidence/replays
+_SCRATCH = os.environ.get('VF_REPO', '/repo').rstrip('/') != '/repo'
+OUT = os.environ.get('VF_OUT_DIR') or ('/tmp/vf-scratch-out' if _SCRATCH else VERIF)
 MAX_SAMPLES = 6
 MAX_VIOLATIONS_KEPT = 8
 
@@ -234,7 +237,7 @@ def run_check(mod: Any, tier: str, seed: int, jobs: int = 16) -> int:
     rc = 0
     seen = set()
     unlisted.sort(key=lambda v: len(jsonio.dumps(v['case'])))
-    rep_dir = os.path.join(VERIF, 'replays', pid)
+    rep_dir = os.path.join(OUT, 'replays', pid)
     n_viol = 0
     for v in unlisted:
         bucket = (v['clause'], jsonio.dumps(v.get('features', {})))
@@ -278,8 +281,8 @@ def run_check(mod: Any, tier: str, seed: int, jobs: int = 16) -> int:
         'coverage': cov, 'assumptions': getattr(mod, 'ASSUMPTIONS', []),
         'wall_s': round(time.time() - t0, 2), 'violations': n_viol,
     }
-    os.makedirs(os.path.join(VERIF, 'evidence'), exist_ok=True)
-    with open(os.path.join(VERIF, 'evidence', '%s.json' % pid), 'w') as fh:
+    os.makedirs(os.path.join(OUT, 'evidence'), exist_ok=True)
+    with open(os.path.join(OUT, 'evidence', '%s.json' % pid), 'w') as fh:
         json.dump(ev, fh, indent=1, sort_keys=True)
         fh.write('\n')
     print('%s tier=%s seed=%d evaluations=%d distinct_nontrivial=%d dont_care=%d excluded=%s violations=%d wall=%.1fs'
